@@ -463,14 +463,19 @@ vp::Verdict checkDfs(const DfsCase &c, vp::Ctx &ctx)
 // tuples) x ALL schedules up to the pre-emption bound.  Sharded by VP_SHARD/VP_SHARDS;
 // "space-completed" is only labelled when this shard visited its whole part within VP_BUDGET_S.
 
+struct Family {
+    unsigned procs, ops, bound;
+};
+
 struct ExhCase {
-    unsigned procs = 2, ops = 3, bound = 3;
+    std::vector<Family> families;
 };
 
 std::string showExh(const ExhCase &c)
 {
     vp::Writer w;
-    w.u("procs", c.procs).u("ops", c.ops).u("preemption_bound", c.bound);
+    for (const auto &f : c.families)
+        w.s("family", std::to_string(f.procs) + " " + std::to_string(f.ops) + " " + std::to_string(f.bound));
     return w.str();
 }
 
@@ -478,63 +483,76 @@ ExhCase parseExh(const std::string &text)
 {
     const vp::Reader r(text);
     ExhCase c;
-    c.procs = static_cast<unsigned>(r.u("procs"));
-    c.ops = static_cast<unsigned>(r.u("ops"));
-    c.bound = static_cast<unsigned>(r.u("preemption_bound"));
+    for (size_t i = 0; i < r.count("family"); ++i) {
+        std::istringstream is(r.s("family", i));
+        Family f{2, 3, 3};
+        is >> f.procs >> f.ops >> f.bound;
+        c.families.push_back(f);
+    }
     return c;
 }
 
+/// families: (processes, max operations per process, pre-emption bound)
 rc::Gen<ExhCase> genExh()
 {
-    return rc::gen::exec([]() {
-        ExhCase c;
-        c.procs = static_cast<unsigned>(vs::envInt("VP_EXH_PROCS", 2));
-        c.ops = static_cast<unsigned>(vs::envInt("VP_EXH_OPS", 3));
-        c.bound = static_cast<unsigned>(vs::envInt("VP_EXH_BOUND", 3));
-        return c;
-    });
+    ExhCase c;
+    c.families = {{2, 3, 3}, {3, 2, 2}};
+    return rc::gen::just(c);
 }
 
-vp::Verdict checkExh(const ExhCase &c, vp::Ctx &ctx)
+/// -> false when the budget ran out
+bool exploreFamily(const Family &fam, vp::Ctx &ctx, double deadline, vp::Verdict &verdict)
 {
     const long shard = vs::envInt("VP_SHARD", 0), shards = std::max(1L, vs::envInt("VP_SHARDS", 1));
-    const double deadline = vp::nowS() + 0.9 * static_cast<double>(vs::envInt("VP_BUDGET_S", 600));
     std::vector<std::vector<int>> family;
     std::vector<int> cur;
-    allPrograms(1u << None, static_cast<int>(c.ops), cur, family);
+    allPrograms(1u << None, static_cast<int>(fam.ops), cur, family);
+    const std::string tag = std::to_string(fam.procs) + "x" + std::to_string(fam.ops) + "b" + std::to_string(fam.bound);
     // unordered tuples of family members (processes are symmetric; the first decision of every
     // execution picks who starts)
-    std::vector<size_t> idx(c.procs, 0);
+    std::vector<size_t> idx(fam.procs, 0);
     uint64_t tupleNo = 0, visited = 0;
-    bool incomplete = false;
+    bool complete = true;
     for (;;) {
         if (static_cast<long>(tupleNo % static_cast<uint64_t>(shards)) == shard) {
-            if (vp::nowS() > deadline) { incomplete = true; break; }
+            if (vp::nowS() > deadline) { complete = false; break; }
             Programs progs;
             for (const size_t i : idx) progs.push_back(family[i]);
             vs::Explored ex;
-            const vp::Verdict v = exploreProgram(progs, c.bound, UINT64_MAX, ctx, ex, false);
+            const vp::Verdict v = exploreProgram(progs, fam.bound, UINT64_MAX, ctx, ex, false);
             ++visited;
             if (!v.ok) {
                 vp::Writer w;
                 showPrograms(w, progs);
-                return vp::fail(v.sig, v.detail + " programs: " + vp::esc(w.str()));
+                verdict = vp::fail(v.sig, v.detail + " programs: " + vp::esc(w.str()));
+                return true;
             }
-            if (!ex.complete) incomplete = true;
-            if (ex.preempted) { ctx.label("program-tuples-with-preemption"); }
+            if (!ex.complete) complete = false;
         }
         ++tupleNo;
         // next non-decreasing index tuple
-        int k = static_cast<int>(c.procs) - 1;
+        int k = static_cast<int>(fam.procs) - 1;
         while (k >= 0 && idx[k] + 1 >= family.size()) --k;
         if (k < 0) break;
         const size_t v = idx[k] + 1;
         for (size_t j = static_cast<size_t>(k); j < idx.size(); ++j) idx[j] = v;
     }
-    ctx.label(incomplete ? "space-incomplete" : "space-completed");
-    ctx.labels["program-tuples-visited"] += visited;
-    ctx.labels["program-family-size"] = family.size();
-    if (!incomplete) ctx.nontrivial();
+    ctx.labels["family-" + tag + "-programs"] = family.size();
+    ctx.labels["family-" + tag + "-tuples-visited"] += visited;
+    return complete;
+}
+
+vp::Verdict checkExh(const ExhCase &c, vp::Ctx &ctx)
+{
+    const double deadline = vs::budgetDeadline() > 0 ? vs::budgetDeadline() : vp::nowS() + 3600; // relative to process start
+    bool complete = true;
+    for (const auto &fam : c.families) {
+        vp::Verdict v = vp::pass();
+        if (!exploreFamily(fam, ctx, deadline, v)) complete = false;
+        if (!v.ok) return v;
+    }
+    ctx.label(complete ? "space-completed" : "space-incomplete");
+    if (complete) ctx.nontrivial();
     return vp::pass();
 }
 
